@@ -89,4 +89,12 @@ example :
     let query := [2,0xaa,0xbb,0xcc,0xdd,1, 2,0,0,0,0,7, 0x88,0xd9, 1,0,0,6] ++ own ++ [2,0,0,0,0,7, 0,5] ++ List.replicate 544 0
     ((C05.runObs c {} {} {} [probe, query]).map (fun r => reportedOf r.fx)).map List.length = [0, 1] := by decide
 
+
+/-- THE HISTORY THEOREM with the interface's attributes (MTU included) and the process-wide data changing freely from frame to frame -/
+theorem history_varying (own : List Nat) (items : List (Cfg × Glob × List Nat)) (hitems : ∀ it ∈ items, ItemOk own it) (w : World) (hw : NoFault w) :
+    holdsC07 own (C05.runObsV w {} items) = true :=
+  ref_historyV own 300 holdsC07Rx (ItemOk own) (by decide) (fun _ h => h)
+    (fun c g w st img s hq hw hi hr => step_holds c g w st img s hq.1 hq.2.1 hq.2.2.1 hw hi hq.2.2.2.2 hr)
+    items w {} {} hitems hw init_inv ref_init
+
 end LLTD.C07H
